@@ -1,6 +1,9 @@
 """C01 — scaled functions equal PyTorch counterparts up to one data-independent scalar."""
 from __future__ import annotations
 
+import os
+import sys
+
 import math
 from typing import Any, Dict, List
 
@@ -114,6 +117,11 @@ def run(ctx: Ctx) -> None:
             if i % 3 == 0:
                 for dt in (torch.float32, torch.bfloat16, torch.float16):
                     base = ops.make_inputs(case, 5, dt)
+                    if os.environ.get("VERIF_DEBUG_CASES"):
+                        print("lowp-case", case.op, case.cfg, case.shapes, dt, file=sys.stderr, flush=True)
+                    if not ops.reference_survives(case, base):
+                        ctx.bump(f"torch-kernel-crash-skipped/{dt}")
+                        continue
                     try:
                         ref = ops.call_ref(case, dict(base), 77)
                     except Exception:
